@@ -2,46 +2,14 @@ package main
 
 import (
 	"fmt"
-	"runtime"
-	"sync"
-	"sync/atomic"
-	"time"
 
-	"github.com/ajitpratap0/GoSQLX/pkg/metrics"
+	"github.com/ajitpratap0/GoSQLX/pkg/sql/tokenizer"
 )
 
 func main() {
-	metrics.Enable()
-	for _, g := range []int{2, 4, 8, 16} {
-		lostMin, lostMax := 0, 0
-		const rounds = 3000
-		for r := 0; r < rounds; r++ {
-			metrics.Reset()
-			var arrived, release int32
-			var wg sync.WaitGroup
-			for i := 0; i < g; i++ {
-				wg.Add(1)
-				go func(i int) {
-					defer wg.Done()
-					atomic.AddInt32(&arrived, 1)
-					for atomic.LoadInt32(&release) == 0 {
-					}
-					metrics.RecordTokenization(time.Microsecond, 10+i, nil)
-				}(i)
-			}
-			for atomic.LoadInt32(&arrived) < int32(g) {
-				runtime.Gosched()
-			}
-			atomic.StoreInt32(&release, 1)
-			wg.Wait()
-			st := metrics.GetStats()
-			if st.MinQuerySize != 10 {
-				lostMin++
-			}
-			if st.MaxQuerySize != int64(10+g-1) {
-				lostMax++
-			}
-		}
-		fmt.Printf("g=%d rounds=%d lostMin=%d lostMax=%d\n", g, rounds, lostMin, lostMax)
+	z := tokenizer.GetTokenizer()
+	t, _ := z.Tokenize([]byte("USING hash btree gin gist HASH brin"))
+	for _, x := range t {
+		fmt.Println(x.Token.Type, x.Token.Type.String(), x.Token.Value)
 	}
 }
